@@ -18,6 +18,9 @@
      call c        the driver issued call c; admitted says whether it must produce a record
      deliver c     one payload was observed for call c; same = it equals, byte for byte, the
                    record the same call produces alone                 (NoTear)
+     list a        after the concurrent phase: same = the attribute list a that n calls were handed as it is
+                   (WriteThru) still holds, member by member, what the program put there - a shared
+                   location is only read (NoRace with ListSort = "copy"); observed without hooks
      end           totals: every admitted call delivered exactly once  (Multiset)               *)
 EXTENDS Integers, Sequences, FiniteSets, TLC, Json, SequencesExt
 
@@ -101,6 +104,9 @@ Next ==
               /\ IF e.same THEN bad' = bad ELSE Reject("a delivered payload is not the complete record of exactly one call")
               /\ got' = IF e.call \in DOMAIN got THEN [got EXCEPT ![e.call] = @ + 1] ELSE (e.call :> 1) @@ got
               /\ UNCHANGED <<pcOwner, atOwner, win, wrote, calls>>
+         [] e.ev = "list" ->         \* a list shared between calls is only read
+              /\ IF e.same THEN bad' = bad ELSE Reject("an attribute list shared between calls was rewritten by a call it was handed to (sorted in place)")
+              /\ UNCHANGED <<pcOwner, atOwner, win, wrote, calls, got>>
          [] e.ev = "blank" ->        \* blank Print/Println calls arrive as single newlines, one each
               /\ IF e.got = e.want THEN bad' = bad ELSE Reject("multiset: number of single-newline payloads differs from the blank Print/Println calls")
               /\ UNCHANGED <<pcOwner, atOwner, win, wrote, calls, got>>
